@@ -354,14 +354,19 @@ class LinearLeastSquares(App):
         with self.y_device:
             A = self.A
 
+        # With G, g(G x) is handled in the dual through the conjugate of the
+        # user's proxg; the l2 term lamda / 2 ||x - z||^2 always stays primal.
         if self.lamda > 0:
             gamma_primal = self.lamda
             proxg = prox.L2Reg(
-                self.x.shape, self.lamda, y=self.z, proxh=self.proxg
+                self.x.shape,
+                self.lamda,
+                y=self.z,
+                proxh=self.proxg if self.G is None else None,
             )
         else:
             gamma_primal = 0
-            if self.proxg is None:
+            if self.proxg is None or self.G is not None:
                 proxg = prox.NoOp(self.x.shape)
             else:
                 proxg = self.proxg
@@ -373,9 +378,12 @@ class LinearLeastSquares(App):
             else:
                 A = linop.Vstack([A, self.G])
                 proxf1c = prox.L2Reg(self.y.shape, 1, y=-self.y)
-                proxf2c = prox.Conj(proxg)
+                if self.proxg is None:
+                    proxf2c = prox.Conj(prox.NoOp(self.G.oshape))
+                else:
+                    proxf2c = prox.Conj(self.proxg)
+
                 proxfc = prox.Stack([proxf1c, proxf2c])
-                proxg = prox.NoOp(self.x.shape)
                 gamma_dual = 0
 
         if self.tau is None:
